@@ -308,6 +308,19 @@ func (fr *Frame) modCall(call *ast.CallExpr, ms *modSet, info *types.Info, visit
 		return
 	}
 	callee = callee.Origin()
+	if isSortModel(callee) {
+		if fullName(callee) != "sort.Search" && len(call.Args) > 0 {
+			if t := info.TypeOf(call.Args[0]); t != nil {
+				if st, ok := t.Underlying().(*types.Slice); ok && !isByte(st.Elem()) {
+					hn, hs := fr.eng.elemHeap(st.Elem())
+					ms.touch(hn, hs)
+					return
+				}
+			}
+			ms.all = true
+		}
+		return
+	}
 	if isStreamModel(callee) {
 		ms.alloc = true
 		ms.touch(streamHeap, streamSort)
